@@ -229,6 +229,8 @@ impl Iterator for SequenceIterator<'_> {
         // as long as there are iterators on the stack
         while !self.iterators.is_empty() {
             loop {
+                #[cfg(feature = "verif-hooks")]
+                crate::verif::step(crate::verif::site::SEQ_NEXT);
                 // take the top of the stack
                 let top = self.iterators.last_mut().unwrap();
                 // take the next item from the top iterator
